@@ -354,8 +354,10 @@ func (re *Regexp) findAllRunesIndex(runner *Runner, input []rune, startAt, n int
 	var out [][]int
 	var flat []int
 	if n > 0 {
-		out = make([][]int, 0, n)
-		flat = make([]int, 0, n*2)
+		// there can't be more matches than positions in the input
+		size := min(n, len(input)+1)
+		out = make([][]int, 0, size)
+		flat = make([]int, 0, size*2)
 	}
 
 	prevEnd := -1
